@@ -334,7 +334,7 @@ def h_ssl_profiles(ctx):
     ctx.observe("n", len(_Ctx.made))
 
 
-def h_demux(ctx, connected):
+def h_demux(ctx, connected, n=12):
     """_recv_next on one datagram with symbolic leading bytes: RFC 7983 demultiplexing.  Every
     datagram whose first byte is 128..191 reaches SRTP unprotect and then the RTP or RTCP handler
     (RTCP for packet types 200..207, RTP outside 192..223), 20..63 goes to DTLS, nothing else is delivered."""
@@ -371,7 +371,7 @@ def h_demux(ctx, connected):
             t.encrypted = True
         b0 = ctx.int("b0", 0, 255)
         b1 = ctx.int("b1", 0, 255)
-        data = sx.mkbytes([b0, b1] + [0] * 10)
+        data = sx.mkbytes(([b0, b1] + [0] * 10)[:n])  # n = 0 / 1: an empty or one-byte datagram
 
         async def recv():
             return data
@@ -379,6 +379,12 @@ def h_demux(ctx, connected):
         t.transport._recv = recv
         sx.run(t._recv_next())
     ctx.reach("demuxed")
+    if n < 2:
+        # (no claim about where a runt goes: libsrtp / the RTP parser reject it further down; the
+        # claim is that _recv_next itself returns)
+        ctx.check(n == 1 or got == [], "empty-datagram-is-dropped", repr(got))
+        ctx.observe("got", got)
+        return
     is_media = sx.And(b0 >= 128, b0 <= 191)
     is_dtls = sx.And(b0 >= 20, b0 <= 63)
     # second byte: 200..207 are the RTCP packet types in use, < 192 or > 223 is unambiguously RTP
@@ -432,7 +438,7 @@ OUT = ["the DTLS handshake, certificate parsing, SRTP encryption/authentication 
 HARNESSES = {
     "ssl-profiles": Harness("ssl-profiles", h_ssl_profiles, lambda tier: [{}], style="BMC over configurations", bounds="one certificate, two DTLS contexts with solver-chosen SRTP profile lists from 8 subsets/orders of the three profiles", encoded=["aiortc.rtcdtlstransport:RTCCertificate._create_ssl_context"], stubs=["OpenSSL.SSL.Context -> recorder"], outside=OUT, twin="contexts-created", opts={"samples": 1}),
     "srtp-window": Harness("srtp-window", h_srtp_window, lambda tier: [{"role": r, "pidx": p} for r in ("client", "server") for p in ((0,) if tier == "quick" else range(len(SRTP_PROFILES)))], style="STEP", bounds="newest sequence number symbolic (16 bit), a second packet 0..1023 behind it (also across the wrap); both roles, profile 0 (quick) / every profile", encoded=["aiortc.rtcdtlstransport:RTCDtlsTransport._setup_srtp", "aiortc.rtcdtlstransport:RTCDtlsTransport._send_rtp"], stubs=STUBS + ["pylibsrtp.Session -> model of libsrtp's sender-side replay window (too-old check against policy.window_size, default 128; repeats need allow_repeat_tx)"], outside=OUT, twin="late-packet-sent", opts={"samples": 1}),
-    "demux": Harness("demux", h_demux, lambda tier: [{"connected": c} for c in (True, False)], style="STEP", bounds="one datagram, first two bytes symbolic (all 65536 values), transport with / without SRTP sessions", encoded=["aiortc.rtcdtlstransport:RTCDtlsTransport._recv_next", "aiortc.rtp:is_rtcp"], stubs=["SRTP session -> identity recorder; DTLS engine -> recorder; RTP/RTCP handlers -> recorders"], outside=["SRTP authentication itself (libsrtp)"], twin="demuxed", opts={"samples": 1}),
+    "demux": Harness("demux", h_demux, lambda tier: [{"connected": c} for c in (True, False)] + [{"connected": True, "n": n} for n in (0, 1)], style="STEP", bounds="one datagram, first two bytes symbolic (all 65536 values), transport with / without SRTP sessions; plus an empty and a one-byte datagram", encoded=["aiortc.rtcdtlstransport:RTCDtlsTransport._recv_next", "aiortc.rtp:is_rtcp"], stubs=["SRTP session -> identity recorder; DTLS engine -> recorder; RTP/RTCP handlers -> recorders"], outside=["SRTP authentication itself (libsrtp)"], twin="demuxed", opts={"samples": 1}),
     "policy": Harness("policy", h_policy, _policy_jobs, style="STEP", bounds="fingerprint lists of 0..2 (quick) / 0..3 entries, algorithm from {sha-256, SHA-256, Sha-384, sha-512, sha-1, md5}, values 2 symbolic characters 0x30..0x7A (any case, equal or not to the digest), handshake ok/failed, 4 SRTP profile outcomes, DTLS role auto/client/server", encoded=ENC, stubs=STUBS, outside=OUT, twin="started", opts={"samples": 1}),
     "keys": Harness("keys", h_keys, lambda tier: [{"pidx": i} for i in range(len(SRTP_PROFILES))], style="RT", bounds="every available SRTP profile, both roles, fully symbolic keying material", encoded=ENC, stubs=STUBS, outside=OUT, twin="keys-derived"),
 }
